@@ -15,7 +15,8 @@ CONSTANTS Mode,       \* "bytes" | "utf8" | "dec"
           WR(_, _),   \* <- Write
           TD(_),      \* <- ToDec
           NT(_),      \* <- NumText
-          NTL(_, _)   \* <- NumTextLoc
+          NTL(_, _),  \* <- NumTextLoc
+          CV(_, _, _) \* <- Convert
 
 VARIABLE inp
 
@@ -95,6 +96,16 @@ LawSwap ==
     /\ WR(inp.d, "little") = Swap(WR(inp.d, "big"))
     /\ Len(Swap(inp.d)) = Len(inp.d)
 
+ConvertBug(d, format, native) == IF format = "big" THEN Swap(d) ELSE d   \* assumes a little-endian host
+
+\* convert is an involution; io::write is "convert, then the bytes as they lie in memory"
+LawConvert ==
+  inp.k = "digits" =>
+    \A f \in Endians, nat \in Endians :
+      /\ CV(CV(inp.d, f, nat), f, nat) = inp.d
+      /\ MemoryBytes(CV(inp.d, f, nat), nat) = Write(inp.d, f)
+      /\ CV(inp.d, nat, nat) = inp.d
+
 (* ---- laws: UTF-8 *)
 LawUtf8RoundTrip == inp.k = "cp" => Utf8Decode(U8(inp.cp)) = inp.cp
 
@@ -125,6 +136,15 @@ LawUtf8Pairs ==
        IN Len(U8(inp.b)) > 1 => Utf8DecodeStr(SubSeq(t, 1, Len(t) - 1)) = [st |-> DIncomplete, w |-> <<inp.a>>]
 
 \* non-characters of the decoder (checked once)
+\* the fixture enum tables: every enumerator has exactly one name, from_string is the inverse
+ASSUME \A E \in EnumIds :
+         /\ \A i, j \in 1..Len(EnumNames[E]) : EnumNames[E][i] = EnumNames[E][j] => i = j
+         /\ \A i \in 0..(Len(EnumNames[E]) - 1) : EnumFromString(E, EnumToString(E, i)) = <<i>>
+ASSUME /\ MatText(<<<<NumOfInt(1), NumOfInt(2)>>, <<NumOfInt(3), NumOfInt(-4)>>>>) = <<40, 40, 49, 44, 50, 41, 44, 40, 51, 44, 45, 52, 41, 41>>
+       /\ BoxText(<<NumOfInt(1)>>, <<NumOfInt(2)>>) = <<40, 40, 49, 41, 44, 40, 50, 41, 41>>
+       /\ Transpose(<<<<1, 2, 3>>, <<4, 5, 6>>>>) = <<<<1, 4>>, <<2, 5>>, <<3, 6>>>>
+       /\ NarrowString(<<97, 98>>) = <<<<97, 98>>>> /\ NarrowString(<<97, 8364>>) = <<>> /\ NarrowString(<<>>) = <<<<>>>>
+
 ASSUME /\ Utf8DecodeStr(<<237, 160, 128>>).st = DInvalid        \* U+D800
        /\ Utf8DecodeStr(<<237, 191, 191>>).st = DInvalid        \* U+DFFF
        /\ Utf8DecodeStr(<<192, 128>>).st = DInvalid             \* overlong
